@@ -184,6 +184,9 @@ func ints(xs []int) string {
 func c18InitCase(e *env, g c18graph, cfg c18cfg, targets []int, r *rng) {
 	calls := c18CallsFor(g, r)
 	ga := c18Applied(g.n, calls)
+	tr := newTrack("C18.init", ga.String()+";"+cfg.String())
+	tr.step(ints(targets))
+	defer tr.done()
 	var initLog []int
 	mm, res := c18Build(g.n, cfg, calls, &initLog, func(i int) services.Service { return services.NewIdleService(nil, nil) })
 	for _, x := range res {
@@ -406,6 +409,10 @@ func c18OnCycle(deps [][]int) int {
 }
 
 func c18AddCase(e *env, c c18addCase) {
+	tr := &caseTrack{cmd: "C18.add", cfg: strconv.Itoa(c.n)}
+	tr.acts = []string{c.callsString()}
+	tr.mark()
+	defer tr.done()
 	mm := modules.NewManager(log.NewNopLogger())
 	for i := 0; i < c.n; i++ {
 		mm.RegisterModule(c18Name(i), func() (services.Service, error) { return nil, nil })
@@ -535,6 +542,7 @@ func c18RandomAddCase(r *rng) c18addCase {
 }
 
 func runC18(e *env) {
+	trackEnv = e
 	only := ""
 	if len(e.args) > 0 {
 		only = e.args[0]
